@@ -6,7 +6,7 @@ from ..core import hx, lst
 from ..ref import P, L, to32
 from . import c01
 
-REQUIRED = ['boundary:formula', 'boundary:public', 'boundary:field', 'boundary:vec', 'stream']
+REQUIRED = ['boundary:formula', 'boundary:public', 'boundary:field', 'boundary:vec', 'boundary:search', 'stream']
 
 SITE_NAMES = {0: 'avx2.mul.lhs', 1: 'avx2.mul.rhs', 2: 'avx2.square', 3: 'avx2.negate_lazy', 4: 'avx2.diff_sum', 5: 'avx2.neg',
               6: 'avx2.mul_consts', 7: 'avx2.reduce', 8: 'ifma.mul.lhs', 9: 'ifma.mul.rhs', 10: 'ifma.square',
@@ -262,6 +262,11 @@ def run(prop, tier, seed, t0):
             for mod, fn, kw, size in streams:
                 k += 1
                 tasks.append(('vlib.props.c11', 'task_bounds', prop, seed * 1000 + k, size, cb, {'mod': mod, 'fn': fn, 'kw': kw}))
+            # feedback-directed search over chains of vector point operations (monitor high-water marks as fitness)
+            for rep in range(1 if q else 12):
+                k += 1
+                tasks.append(('vlib.props.c11', 'task_search', prop, seed * 1000 + k, 0, cb,
+                              {'which': which, 'generations': 3 if q else 10, 'population': 32 if q else 96}))
     m = core.run_tasks(tasks)
     return core.finish(prop, tier, seed, t0, m,
                        rule='(1) the public-API request streams of C02-C09/C13/C16/C17, the raw-limb field workload of C01 and '
@@ -277,3 +282,126 @@ def run(prop, tier, seed, t0):
                                     'the vec hook workload of C01v enters kernels exactly at their documented preconditions, so the '
                                     'monitor must report 0 exceedances there as well (the known-finding request of C01 is the '
                                     'single documented-bound corner of avx2 neg and stays within the monitor limit 2^(w+4))'] + notes + notes2)
+
+
+# ---------------------------------------------------------------------------
+# feedback-directed search for the largest lanes that reach each vector kernel along real call paths
+# ---------------------------------------------------------------------------
+
+def _chain_lines(cid, chain, starts, which):
+    """request lines for one chain: registers hold extended points (raw lanes, fed back through $refs)"""
+    pt = 'vec.%s.pt' % which
+    lines = ['%s_z bounds.reset' % cid]
+    regs = []
+    k = 0
+    for s in starts:
+        k += 1
+        rid = '%s_%d' % (cid, k)
+        lines.append('%s %s ext_from_edwards %s' % (rid, pt, s))
+        regs.append('$%s.0' % rid)
+    for st in chain:
+        op = st[0]
+        a = regs[st[1] % len(regs)]
+        k += 1
+        rid = '%s_%d' % (cid, k)
+        if op == 'dbl':
+            lines.append('%s %s ext_double %s' % (rid, pt, a))
+        elif op == 'pow2':
+            lines.append('%s %s ext_pow2 %s #%d' % (rid, pt, a, 1 + st[2] % 4))
+        else:
+            b = regs[st[2] % len(regs)]
+            k += 1
+            cid2 = '%s_%d' % (cid, k)
+            lines.append('%s %s cached_from_ext %s' % (cid2, pt, b))
+            c = '$%s.0' % cid2
+            if op == 'addn':
+                k += 1
+                nid = '%s_%d' % (cid, k)
+                lines.append('%s %s cached_neg %s' % (nid, pt, c))
+                c = '$%s.0' % nid
+                lines.append('%s %s ext_add_cached %s %s' % (rid, pt, a, c))
+            elif op == 'sub':
+                lines.append('%s %s ext_sub_cached %s %s' % (rid, pt, a, c))
+            else:
+                lines.append('%s %s ext_add_cached %s %s' % (rid, pt, a, c))
+        regs.append('$%s.0' % rid)
+    lines.append('%s_r bounds.report' % cid)
+    return lines
+
+
+def _random_step(rng):
+    return (rng.choice(['dbl', 'dbl', 'add', 'add', 'sub', 'addn', 'pow2']), rng.randrange(64), rng.randrange(64))
+
+
+def task_search(prop, seed, size, cfgbins, which='avx2', generations=4, population=48):
+    import random
+    rng = random.Random(seed)
+    label, binary, frc = cfgbins[0]
+    pool = vals.point_pool(rng, 40, torsion_frac=0.5)
+    special = ['I', 'B', 'T1', 'T2', 'T3', 'T4', 'T5', 'T6', 'T7']
+    toks = special + [p.tok() for p in pool]
+    sites = [s for s, n in SITE_NAMES.items() if n.startswith(which)]
+    pop = []
+    for _ in range(population):
+        starts = [rng.choice(toks) for _ in range(rng.randint(1, 3))]
+        chain = [_random_step(rng) for _ in range(rng.randint(2, 10))]
+        pop.append((starts, chain))
+    best = {}      # site -> (ratio, chain description)
+    viol, harness = [], []
+    evals = 0
+    distinct = set()
+    for gen in range(generations):
+        lines = ['f0 force #%d' % frc] if frc else []
+        for i, (starts, chain) in enumerate(pop):
+            lines += _chain_lines('g%dc%d' % (gen, i), chain, starts, which)
+        res, err, rc = core.run_driver(binary, lines)
+        if rc != 0:
+            harness.append('%s: search driver rc=%s %s' % (label, rc, err[-200:]))
+            break
+        scored = []
+        for i, (starts, chain) in enumerate(pop):
+            st, t = res.get('g%dc%d_r' % (gen, i), ('missing', []))
+            if st != 'ok' or not t or t[0] != 'T':
+                harness.append('%s: bound monitor not available in this build' % label)
+                break
+            evals += 1
+            distinct.add(repr((starts, chain)))
+            score = 0.0
+            for x in t[1:]:
+                s_, calls, me, mo, exc, le, lo = [int(v) for v in x.split(':')]
+                if s_ not in sites or calls == 0 or s_ in (6, 7, 13):
+                    continue
+                r = max(me / le, mo / lo)
+                score = max(score, r)
+                if r > best.get(SITE_NAMES[s_], (0, None))[0]:
+                    best[SITE_NAMES[s_]] = (round(r, 6), 'starts=%s chain=%s' % (starts, chain))
+                if exc:
+                    cl = _chain_lines('g%dc%d' % (gen, i), chain, starts, which)
+                    viol.append(core.Violation(prop, label, cl[-1], (['f0 force #%d' % frc] if frc else []) + cl, 'no kernel entered above its bound', t,
+                                               '%s entered above its documented precondition on a chain of point operations from valid points '
+                                               '(max even %#x odd %#x, limits %#x / %#x)' % (SITE_NAMES[s_], me, mo, le, lo)))
+            scored.append((score, starts, chain))
+        if harness:
+            break
+        scored.sort(key=lambda x: -x[0])
+        keep = scored[:max(4, population // 4)]
+        pop = [(s, c) for _, s, c in keep]
+        while len(pop) < population:
+            _, s, c = rng.choice(keep)
+            s, c = list(s), list(c)
+            m = rng.random()
+            if m < 0.3 and len(c) < 16:
+                c.insert(rng.randrange(len(c) + 1), _random_step(rng))
+            elif m < 0.6 and c:
+                c[rng.randrange(len(c))] = _random_step(rng)
+            elif m < 0.75 and len(c) > 2:
+                del c[rng.randrange(len(c))]
+            elif m < 0.9:
+                s[rng.randrange(len(s))] = rng.choice(toks)
+            else:
+                c = c + c[-2:]
+            pop.append((s, c))
+    return {'violations': viol, 'harness': harness, 'samples': [{'cfg': label, 'search_best': {k: v for k, v in best.items()}}],
+            'evaluations': evals, 'distinct': distinct, 'per_cfg': {label: {'meta': 'bound-monitor feedback search', 'requests': evals}},
+            'classes': {'boundary:search': evals},
+            'extra': {'bound_search_best_ratio_' + which: {('max_' + k): v[0] for k, v in best.items()}}}
